@@ -39,50 +39,46 @@ def _factory_params(prog, m, e):
 
 
 def signatures(rep, prog):
-    m = prog.mod(LD)
+    """every entry of the network loader table, read off its VALUE (a factory, a lambda, a closure of a helper, a partial, a callable object):
+    applied to the keywords of a description entry it builds an element whose name is the entry's name -- every keyword reaches the factory
+    exactly once (a TypeError of the analysed call is decided)"""
+    from ..terms import Raised
+    m = prog.mod(LD); em = prog.mod('Network.elements')
     entries = prog.table(LD, 'network_branch_translators')
     if len(entries) < 8:
         raise AnalysisError('network_branch_translators table shrank below the confirmed size')
+    values = prog.module_namespace(m).get('network_branch_translators')
+    cands = []
+    for nm, d in em.defs.items():
+        if isinstance(d, ast.FunctionDef) and d.returns is not None and 'Element' in ast.unparse(d.returns):
+            for p_ in params_of(d)[0] + params_of(d)[4]:
+                if p_ not in cands and p_ != 'name': cands.append(p_)
+    def build(hv, keys):
+        ev = Evaluator(prog); ev.opaque_fns.add((LD, 'to_complex')); ev._try_depth += 1
+        kw = {k: A('v_' + k) for k in keys}; kw['name'] = A('the_name')
+        try: return ev.apply(hv, [], kw, m, 1), None
+        except Raised as ex: return None, (ex.kind, ex.detail)
     for key, kn, vn in entries:
         site = prog.site(m, vn)
-        if isinstance(vn, ast.Lambda):
-            kwname = vn.args.kwarg.arg if vn.args.kwarg else None
-            body = vn.body
-            if not (isinstance(body, ast.Call) and kwname):
-                rep.ob('R17.sig', f'network:{key}', None, 'entry is not `lambda **kwargs: factory(...)`', site); continue
-            params, has_kw, fname = _factory_params(prog, m, body.func)
-            if params is None:
-                rep.ob('R17.sig', f'network:{key}', None, f'factory {ast.unparse(body.func)} not resolved', site); continue
-            explicit = [k.arg for k in body.keywords if k.arg is not None]
-            spread = [k.value for k in body.keywords if k.arg is None]
-            popped, kept_reads = set(), set()
-            for n in ast.walk(body):
-                if isinstance(n, ast.Call) and isinstance(n.func, ast.Attribute) and n.func.attr == 'pop' and isinstance(n.func.value, ast.Name) and n.func.value.id == kwname and n.args and isinstance(n.args[0], ast.Constant):
-                    popped.add(n.args[0].value)
-                if isinstance(n, ast.Subscript) and isinstance(n.value, ast.Name) and n.value.id == kwname and isinstance(n.slice, ast.Constant):
-                    kept_reads.add(n.slice.value)
-            problems = []
-            passes_rest = any(isinstance(s, ast.Name) and s.id == kwname for s in spread)
-            through_helper = [s for s in spread if isinstance(s, ast.Call)]
-            for k in explicit:
-                if k not in params and not has_kw: problems.append(f"factory {fname} has no parameter '{k}'")
-                if passes_rest and k in kept_reads and k not in popped:
-                    problems.append(f"'{k}' is passed explicitly and again through **{kwname} (read with {kwname}['{k}'], not popped): TypeError 'multiple values' for every such entry")
-            if 'name' not in params and not has_kw: problems.append(f"factory {fname} does not accept 'name'")
-            for h in through_helper:
-                # translate_to_complex(keys=[...], **kwargs): listed keys must be parameters of the factory
-                for kw in h.keywords:
-                    if kw.arg == 'keys' and isinstance(kw.value, (ast.List, ast.Tuple)):
-                        for el in kw.value.elts:
-                            if isinstance(el, ast.Constant) and el.value not in params and not has_kw:
-                                problems.append(f"factory {fname} has no parameter '{el.value}'")
-            rep.ob('R17.sig', f'network:{key}', not problems, '; '.join(problems) or f'{fname}({", ".join(explicit)}{", " if explicit else ""}**rest): every keyword reaches the factory once', site)
-        else:
-            params, has_kw, fname = _factory_params(prog, m, vn)
-            if params is None:
-                rep.ob('R17.sig', f'network:{key}', None, f'{ast.unparse(vn)} not resolved', site); continue
-            ok = 'name' in params or has_kw
-            rep.ob('R17.sig', f'network:{key}', ok, f"factory {fname} accepts 'name'" if ok else f"factory {fname} does not accept 'name' (entry_to_branch renames id->name)", site)
+        hv = values.get(key) if isinstance(values, dict) else None
+        if hv is None:
+            r = prog.resolve_expr(m, vn) if isinstance(vn, (ast.Name, ast.Attribute)) else None
+            hv = Evaluator(prog).ref_of(r) if r else None
+        if hv is None:
+            rep.ob('R17.sig', f'network:{key}', None, 'entry value not followed', site); continue
+        keys = list(cands); t = err = None
+        for _ in range(len(cands) + 1):
+            t, err = build(hv, keys)
+            if err is None or err[0] != 'TypeError' or 'unexpected keyword argument' not in err[1]: break
+            bad = err[1].split("'")[1] if "'" in err[1] else None
+            if bad not in keys: break
+            keys.remove(bad)
+        if err is not None:
+            rep.ob('R17.sig', f'network:{key}', False if err[0] == 'TypeError' else None, f'applied to the keywords {keys + ["name"]}: raises {err[0]} ({err[1]})', site); continue
+        named = isinstance(t, Rec) and term_equal(t.f.get('name'), A('the_name'))
+        followed = isinstance(t, Rec) and 'missing-arg' not in repr(tkey(t)) and len(keys) < len(cands)
+        rep.ob('R17.sig', f'network:{key}', (True if named else False) if followed else None,
+               (f'builds {t.cls}(type={t.f.get("type")!r}) named by the entry from the keywords {keys}' if followed and named else f'applied to {keys + ["name"]}: {t!r:.160}'), site)
     # one literal entry through load_network: id -> name, N1 / N2 -> first / second terminal, the element of the kind registered under `type`
     try:
         f = prog.func(LD, 'load_network')
